@@ -205,6 +205,14 @@ def cli_part(res, rnd, a):
                 else:
                     dom = rnd.randrange(nproc)
                     cli.append(["-add-processor", str(dom)]); ops.append({"op": "AddProc", "i": dom}); nlinks += procs[dom]["arch"]["N"]
+            # every history ends with a list deletion given in descending order of at least two existing ids, when there are that many
+            for flag, opn, cnt in (("-del-outputs", "DelOutput", cur_out), ("-del-inputs", "DelInput", cur_in)):
+                if cnt >= 2:
+                    lst = sorted(rnd.sample(range(cnt), rnd.randint(2, min(3, cnt))), reverse=True)
+                    cli.append([flag, ",".join(str(x) for x in lst)])
+                    named_cases.append((lst, cnt, sorted(lst)))
+                    for x in lst:
+                        ops.append({"op": opn, "i": x})
             meta = {"machine": spec, "commands": [" ".join(x) for x in cli]}
             res.count_case(meta, nontrivial=True)
             bad = None
